@@ -280,7 +280,8 @@ def _build(op, names, vk, log, caches=None, tmpl=None):
     if op["op"] == "splitrun":
         outer = _mk_els(op["outer"], 0, names, vk, log)
         branch = _mk_els(op["branch"], len(outer), names, vk, log)
-        sp = lena.core.Split([lena.core.Sequence(*branch)], bufsize=op["bufsize"])
+        member = branch[0] if op.get("bare") else lena.core.Sequence(*branch)
+        sp = lena.core.Split([member], bufsize=op["bufsize"])
         return lena.core.Source(src, *(outer + [sp]))()
     els = _mk_els(op["els"], 0, names, vk, log, caches, tmpl)
     mode = op.get("mode", "source")
@@ -610,8 +611,9 @@ def _show_els(els):
 
 def _show_op(op):
     if op["op"] == "splitrun":
+        member = _show_els(op["branch"]) if op.get("bare") else f"Sequence({_show_els(op['branch'])})"
         return (f"splitrun[src={op['src']['vals']}" + ("" if op["src"]["raise"] is None else f"!{op['src']['raise']}")
-                + f" outer={_show_els(op['outer'])} Split([Sequence({_show_els(op['branch'])})], bufsize={op['bufsize']})"
+                + f" outer={_show_els(op['outer'])} Split([{member}], bufsize={op['bufsize']})"
                 + f" take={op['take']} {op.get('fin', 'close')}]")
     if op["op"] != "run":
         return jdump(op)
@@ -813,23 +815,25 @@ def _family_d():
                                                             FINALIZE, R(_vals(2, 1), [C(0)], mode=mode)]}
 
 
-def SR(vals, outer, branch, bufsize, take=None, fin="close", sraise=None):
+def SR(vals, outer, branch, bufsize, take=None, fin="close", sraise=None, bare=False):
     return {"op": "splitrun", "src": {"vals": list(vals), "raise": sraise}, "outer": [dict(e) for e in outer],
-            "branch": [dict(e) for e in branch], "bufsize": bufsize, "take": take, "fin": fin}
+            "branch": [dict(e) for e in branch], "bufsize": bufsize, "take": take, "fin": fin, "bare": bare}
 
 
 _SPLIT_SHAPES = [([], [C(0)]), ([M(1)], [C(0)]), ([], [M(1), C(0), M(2)]), ([M(1)], [C(0), M(2), C(1)]),
                  ([C(1)], [M(2), C(0)]), ([M(3)], [M(1)])]
 
 
-def _split_variants(outer, branch, n, bufsize, run=0):
+def _split_variants(outer, branch, n, bufsize, run=0, bare=False):
     vals = _vals(run, n)
-    yield SR(vals, outer, branch, bufsize)
+    yield SR(vals, outer, branch, bufsize, bare=bare)
     for fin in ("close", "leak"):
         for k in range(n + 1):
-            yield SR(vals, outer, branch, bufsize, take=k, fin=fin)
+            yield SR(vals, outer, branch, bufsize, take=k, fin=fin, bare=bare)
         for k in range(n + 1):
-            yield SR(vals, outer, branch, bufsize, sraise=k, fin=fin)
+            yield SR(vals, outer, branch, bufsize, sraise=k, fin=fin, bare=bare)
+        if bare:
+            continue
         for part, els in (("outer", outer), ("branch", branch)):
             if part == "branch" and bufsize is not None:
                 continue        # an element with state in a per-buffer branch is Split's documented caveat
@@ -851,6 +855,16 @@ def _family_s(ns):
                 for r1 in _split_variants(outer, branch, n, bufsize):
                     yield {"nc": nc, "fam": "S", "hist": [r1, R(_vals(1, 2), outer + branch, mode="sequence"),
                                                           SR(_vals(2, 3), outer, branch, bufsize)]}
+    # a bare Cache as a member of Split: hoisted into a Source when it is filled (lena.core.alter_sequence)
+    for outer in ([], [M(1)], [C(1)]):
+        for rcf in (False, True):
+            for n in ns:
+                for bufsize in (None, 1, 2):
+                    for filled in (False, True):
+                        pre = [R(_vals(3, 2), [C(0)])] if filled else []
+                        for r1 in _split_variants(outer, [C(0, rcf)], n, bufsize, bare=True):
+                            yield {"nc": 2, "fam": "S", "hist": pre + [r1, SR(_vals(2, 3), outer, [C(0)], bufsize, bare=True),
+                                                                       R(_vals(1, 1), [C(0)])]}
 
 
 def _random_case(rng):
